@@ -11,10 +11,12 @@ EXTENDS Bytes, IdnaFragment
 
 TA(ok, unspec, s) == [ok |-> ok, unspec |-> unspec, s |-> s]
 
-DomainToAscii(decoded) ==
+DomainToAsciiX(decoded, strict) ==
   IF AllAscii(decoded) THEN TA(TRUE, FALSE, LowerStr(decoded))
   ELSE IF ~ValidUtf8(decoded) THEN TA(FALSE, FALSE, <<>>)   \* U+FFFD is disallowed
   ELSE LET cps == Utf8Decode(decoded) IN
        IF ~InFragment(cps) THEN TA(FALSE, TRUE, <<>>)
-       ELSE LET r == FragToAscii(cps) IN TA(r.ok, r.unspec, r.s)
+       ELSE LET r == FragToAsciiX(cps, strict) IN TA(r.ok, r.unspec, r.s)
+
+DomainToAscii(decoded) == DomainToAsciiX(decoded, TRUE)
 =============================================================================
